@@ -73,7 +73,13 @@ impl Formatter for EmptyLineRemover {
             .is_none();
 
         if is_not_next_line_empty && is_not_prev_line_empty {
-            (byte_pos, byte_pos + 1)
+            // The whole empty line goes, its blanks included: on the first line of the file
+            // nothing else removes them, and they would end up in front of the next line.
+            let line_start = bytes[..byte_pos]
+                .iter()
+                .rposition(|b| *b == b'\n')
+                .map_or(0, |pos| pos + 1);
+            (line_start, byte_pos + 1)
         } else {
             (byte_pos, byte_pos)
         }
